@@ -5,10 +5,12 @@
 package main
 
 import (
+	"bytes"
 	"fmt"
 
 	"github.com/9elements/converged-security-suite/v2/pkg/provisioning/bootguard"
 	"github.com/9elements/converged-security-suite/v2/pkg/test"
+	"github.com/9elements/converged-security-suite/v2/pkg/tools"
 	"github.com/linuxboot/fiano/pkg/intel/metadata/cbnt"
 	"github.com/linuxboot/fiano/pkg/intel/metadata/cbnt/cbntbootpolicy"
 	"github.com/linuxboot/fiano/pkg/intel/metadata/common/bgheader"
@@ -85,6 +87,21 @@ func probes(c *gal.Ctx) {
 		c.Probe("C05-LCP2-nil-deref", hasPanicked, fmt.Sprintf("PSIndexHasValidLCP on a v3.0 SHA256 LIST policy returned %+v", got))
 	}
 
+	// SINITACMcomplyTPMSpec
+	{
+		sample := repoFile("pkg/tools/tests/sinit_acm.bin")
+		a, err := tools.ParseACM(bytes.NewReader(sample))
+		if err != nil {
+			panic(err)
+		}
+		off := a.Info.TPMInfoList
+		g = runSinitTPM(append(acmWithCaps(sample, off, 0x11), make([]byte, 0x10000)...), 2, true)
+		c.Probe("C05-sinitACM-double-parse", !g.Panic && !g.OK, fmt.Sprintf("SINITACMcomplyTPMSpec, TPM 2.0 present, SINIT region = the bundled SINIT ACM with TPM capabilities 0x11 (both families) + zero padding: %+v", g))
+		two := append(acmWithCaps(sample, off, 0x10), acmWithCaps(sample, off, 0x10)...)
+		g = runSinitTPM(two, 1, true)
+		c.Probe("C05-SINITTPMSpec-precedence", g.isPass(), fmt.Sprintf("SINITACMcomplyTPMSpec, TPM 1.2 in use, ACM capabilities 0x10 (TPM 2.0 family only; module stored twice so that sinitACM returns one): %+v", g))
+	}
+
 	b := &bootguard.BootGuard{Version: bgheader.BootGuardVersion(0)}
 	g = run2(func() (bool, error) { return b.KMCryptoSecure() })
 	c.Probe("C05-BG-unknown-version-failopen", g.isPass(), fmt.Sprintf("KMCryptoSecure on BootGuard{Version: 0} (no manifests at all) returned %+v", g))
@@ -130,6 +147,7 @@ func main() {
 	genNVAttr(c)
 	genNVIndex(c)
 	genLCP(c)
+	genSinitTPM(c)
 	genME(c)
 	genValidateME(c)
 	genCrypto(c)
